@@ -495,6 +495,8 @@ class ExprMixin:
                     return k(s, VInt(x - y))
                 if isinstance(op, ast.Mult):
                     return k(s, VInt(x * y))
+                if isinstance(op, (ast.BitOr, ast.BitAnd, ast.BitXor)):
+                    return k(s, self.uf('int_' + type(op).__name__, [VInt(x), VInt(y)], T_INT))
                 raise Unsupported("int op %s" % type(op).__name__)
             if isinstance(a, VObj) and a.sort == 'Str':
                 if isinstance(op, ast.Mod):
